@@ -12,6 +12,9 @@ fn verif_sort_freq(v: &mut Vec<(usize, u32)>)
 //@impl src/charwise/mapper.rs impl CodeMapper
 //@fn new
 //@rules R25 R26
+//@pre{
+#[verifier::loop_isolation(false)]
+//@}
 //@ret r
 //@head{
     requires freqs@.len() <= 0x110000
